@@ -201,6 +201,8 @@ class CallMixin:
         return self._minmax(node, st, False)
 
     def bi_float(self, node, st):
+        if not node.args:
+            return VReal(0)
         v = self.num(self.ev(node.args[0], st), node, st)
         return coerce(v, REAL)
 
@@ -446,11 +448,23 @@ class CallMixin:
                 args, kw = self.args_of(node, st)
                 return self.apply_func(recv.f[attr], args, kw, node, st)
             bound = self.cur_bind().get("%s.%s" % (recv.ty.rname, attr))
+            if bound and bound.startswith("builtin:"):
+                # a callable stored in a field, bound by the contract to a builtin (checked against the constructor natively)
+                fake = ast.Call(func=ast.Name(id=bound[8:], ctx=ast.Load()), args=node.args, keywords=node.keywords)
+                ast.copy_location(fake, node)
+                return getattr(self, "bi_" + bound[8:])(fake, st)
             c = api.REG[bound] if bound else self.resolve_user(attr, recv.ty.rname)
             if c is None:
                 self.unsupported(node, "method %s.%s has no contract" % (recv.ty.rname, attr))
             args, kw = self.args_of(node, st)
             return self.call_user(c, [recv] + args, kw, node, st, f.value)
+        if isinstance(recv, VFunc) and recv.desc.startswith("class:"):
+            cname = recv.desc[6:]
+            c = self.resolve_user(attr, cname)
+            if c is None:
+                self.unsupported(node, "static method %s.%s has no contract" % (cname, attr))
+            args, kw = self.args_of(node, st)
+            return self.call_user(c, args, kw, node, st, None)
         if isinstance(recv, VEnum):
             c = self.resolve_user(attr, recv.ty.ename)
             if c is None:
@@ -628,6 +642,9 @@ class CallMixin:
 
     # ---- spec functions & lemmas -----------------------------------------------------------------------
     def call_spec(self, s, args, node):
+        # a spec function applied to an optional value under a guard (x is not None and f(x)): use the payload
+        _tys = [T.parse_type(t) for t in s.arg_types]
+        args = [a.v if isinstance(a, VOpt) and not isinstance(t, TOpt) else a for a, t in zip(args, _tys)]
         if not getattr(s, "recursive", None):
             if getattr(s, "recursive", None) is None:
                 s.recursive = any(isinstance(n, ast.Call) and isinstance(n.func, ast.Name) and n.func.id == s.name
@@ -762,7 +779,11 @@ class CallMixin:
         for p in params:
             if p in c.args and c.args[p]:
                 try:
-                    bound[p] = coerce(bound[p], T.parse_type(c.args[p]))
+                    want = T.parse_type(c.args[p])
+                    if isinstance(bound[p], VOpt) and not isinstance(want, TOpt):
+                        self.oblige(st, "call-pre", node, z3.Not(bound[p].isnone), "%s of %s must not be None" % (p, c.name))
+                        bound[p] = bound[p].v
+                    bound[p] = coerce(bound[p], want)
                 except Unsupported:
                     if not isinstance(bound[p], (VFunc, VNone)):
                         raise
